@@ -511,14 +511,25 @@ func (f *Frame) seqUpdate(s Term, i Term, v Term) Term {
 // frameCheck emits the frame obligation for a heap write (only for functions
 // whose contract has a modifies clause).
 func (f *Frame) frameCheck(key string, ref Term, st *State, reach Term, p token.Pos) {
+	f.frameCheckNamed("", key, ref, st, reach, p)
+}
+
+func (f *Frame) frameCheckNamed(name, key string, ref Term, st *State, reach Term, p token.Pos) {
 	top := f.vc
 	if top.con == nil || !top.con.ModSet {
+		return
+	}
+	if strings.HasPrefix(key, "G:") || strings.HasPrefix(key, "L:") {
 		return
 	}
 	allowed := []Term{T(sBool, "(>= (alloc %s) now!0)", ref.S)}
 	for _, m := range top.frameTargets {
 		if m.all {
 			return
+		}
+		if m.since != nil {
+			allowed = append(allowed, T(sBool, "(>= (alloc %s) %s)", ref.S, m.since.S))
+			continue
 		}
 		if m.key == key {
 			if m.whole {
@@ -527,7 +538,8 @@ func (f *Frame) frameCheck(key string, ref Term, st *State, reach Term, p token.
 			allowed = append(allowed, tEq(ref, m.ref))
 		}
 	}
-	name := "frame@" + f.prefix + top.site("store:"+key)
-	tags := top.frameTags
-	top.oblige("frame", name, tags, reach, tOr(allowed...), f.pos(p))
+	if name == "" {
+		name = "frame@" + f.prefix + top.site("store:"+key)
+	}
+	top.oblige("frame", name, top.frameTags, reach, tOr(allowed...), f.pos(p)).Desc = "write to " + key + " stays inside the declared frame (or goes to fresh memory)"
 }
